@@ -38,8 +38,8 @@ ASSUMPTIONS = [
     "a hang is detected by the wall-clock horizon of 120 s per execution",
 ]
 BOUNDS = {
-    "quick": "(a) 6 configurations; (b) crash points at every message of a short baseline run, 2 death modes + raise; (c) every evaluation; (d) every index, both sides",
-    "thorough": "(a) all 11 configurations; (b) every message x 5 fault kinds on two configurations; (c), (d) as quick on two configurations",
+    "quick": "(a) 9 configurations; (b) crash points at every message of a short baseline run, 2 death modes + raise; (c) every evaluation; (d) every index, both sides",
+    "thorough": "(a) all 11 configurations plus the grid of all 10 supported methods x mask x accepted constraint sets (45 configurations); (b) every message x 5 fault kinds on two configurations; (c), (d) as quick on two configurations",
 }
 HORIZON = 120
 
@@ -48,7 +48,8 @@ HORIZON = 120
 
 
 def worker_config(name: str, external: bool) -> dict[str, Any]:
-    method = {"nelder-mead": "nelder-mead", "de": "differential_evolution"}.get(name.split(":")[0], "slsqp")
+    method = {"nelder-mead": "nelder-mead", "de": "differential_evolution", "cobyla": "cobyla", "powell": "powell", "cg": "cg",
+              "bfgs": "bfgs", "newton-cg": "newton-cg", "lbfgsb": "l-bfgs-b", "tnc": "tnc"}.get(name.split(":")[0], "slsqp")
     flags = name.split(":")[1:]
     method_string = ("external/" if external else "") + ("scipy/" if "3part" in flags else "") + method
     config: dict[str, Any] = {
@@ -71,11 +72,19 @@ def worker_config(name: str, external: bool) -> dict[str, Any]:
         config["variables"]["upper_bounds"] = [2.0, 2.0, 3.0]
         config["linear_constraints"] = {"coefficients": [[1.0, 1.0, 0.0]], "lower_bounds": [-1.0], "upper_bounds": [4.0]}
         config["nonlinear_constraints"] = {"lower_bounds": [-50.0], "upper_bounds": [50.0]}
+    if method in ("cobyla", "powell"):
+        config["optimizer"]["options"] = {"maxiter": 6}
+    if "bounds" in flags:
+        config["variables"]["lower_bounds"] = [-2.0, -2.0, -2.0]
+        config["variables"]["upper_bounds"] = [2.0, 2.0, 3.0]
+    if "lin" in flags:
+        config["linear_constraints"] = {"coefficients": [[1.0, 1.0, 0.0], [0.0, 1.0, -1.0]], "lower_bounds": [-1.0, -3.0], "upper_bounds": [4.0, 3.0]}
     if "twocon" in name:
         # two non-linear constraints: together with a mask the gradient matrix handed to the back-end used to be
         # Fortran-ordered in-process only (fixed by c3ced68)
         config["nonlinear_constraints"] = {"lower_bounds": [-50.0, -60.0], "upper_bounds": [50.0, 60.0]}
-        config["optimizer"]["options"] = {"maxiter": 4}
+        if method != "differential_evolution":
+            config["optimizer"]["options"] = {"maxiter": 4}
     if "mask" in name:
         config["variables"]["mask"] = [True, False, True]
     if "maxfun" in name:
@@ -285,7 +294,9 @@ def judge(case: dict[str, Any]) -> Judgement:
             j.fail("in-process-reference-failed", case=case)
             return j
         j.outcome = f"equal:{case['config']}:{run['code']}:{run['exception'] and run['exception'].split(':')[0]}"
-        if run["exception"] != reference["exception"]:
+        # An error inside the optimizer is reported by the external plug-in as its own error type (documented), so only
+        # "ended with an error" is compared, not the exception text.
+        if (run["exception"] is None) != (reference["exception"] is None):
             j.fail("exception-differs-from-in-process-run", external=run["exception"], in_process=reference["exception"], case=case)
         if run["code"] != reference["code"]:
             j.fail("exit-code-differs-from-in-process-run", external=run["code"], in_process=reference["code"], case=case)
@@ -344,6 +355,20 @@ def shards(tier: str, seed: int) -> list[dict[str, Any]]:
     if not quick:
         out.append({"kind": "equal", "config": "slsqp:3part:rms0:nan1+de:3part", "external": True})
         out.append({"kind": "equal", "config": "slsqp+slsqp:constraints", "external": True})
+    # grid: every supported method x mask x constraint set the method accepts
+    grid = []
+    for m in ("slsqp", "cobyla", "de"):
+        for cons in ("", ":lin", ":twocon", ":twocon:lin"):
+            for mask in ("", ":mask"):
+                grid.append(m + cons + mask)
+    for m in ("nelder-mead", "powell", "cg", "bfgs", "newton-cg", "lbfgsb", "tnc"):
+        for mask in ("", ":mask"):
+            grid.append(m + mask)
+    for m in ("nelder-mead", "powell", "lbfgsb", "tnc"):
+        grid.append(m + ":bounds:mask")
+    for name in (["cobyla:twocon:mask", "bfgs:mask", "lbfgsb:bounds:mask"] if quick else grid):
+        if name not in equal:
+            out.append({"kind": "equal", "config": name, "external": True})
     for name, k in (("slsqp", 1), ("slsqp", 0)) if quick else (("slsqp", 0), ("slsqp", 1), ("slsqp:constraints", 2), ("de", 3)):
         out.append({"kind": "equal", "config": name, "external": True, "fault": {"side": "evaluator", "kind": "nan", "at": k}})
         out.append({"kind": "equal", "config": name, "external": True, "fault": {"side": "evaluator", "kind": "abort", "at": k}})
